@@ -297,6 +297,13 @@ func oracleC11(f *sessionFam, w *World, res *Result) []Violation {
 						slack += time.Duration(re.Ms) * time.Millisecond
 					}
 				}
+				// ... and so does a batch whose data the application hands over through a slow reader: the poll has been
+				// taken by the flush and is answered when the reader has delivered
+				for _, op := range f.sc.App {
+					if op.Sess == a && op.SlowMs > 0 {
+						slack += time.Duration(op.SlowMs) * time.Millisecond
+					}
+				}
 				if wh := w.Evs[r.SeqWH-1]; wh.T > ce.T+slack {
 					l.add("pending-poll-answered-at-close", "", fmt.Sprintf("%s: poll #%d was pending when the session closed at %v but was answered only at %v", r.Client, r.ID, ce.T, wh.T))
 				}
@@ -511,6 +518,14 @@ func oracleC12(f *sessionFam, w *World, res *Result) []Violation {
 		}
 		// buffered packets first: every message created before the close call reaches a client that keeps reading
 		clientOK := sp.StopAtMs == 0 && sp.CloseAtMs == 0 && len(sp.Faults) == 0 && len(sp.Cand) == 0
+		// a discarding close (Close(true), a shutdown) between the graceful close and its completion throws the buffer away,
+		// as it is meant to
+		for _, e := range w.Evs {
+			if e.Seq > ac.Seq && e.Seq < ce.Seq && (e.Kind == "app-server-close" || e.Kind == "app-http-close" ||
+				(e.Sess == a && (e.Kind == "app-close" || e.Kind == "reent-call") && strings.Contains(e.S, "discard"))) {
+				clientOK = false
+			}
+		}
 		gone := w.evs(a, "c-gone")
 		if clientOK && (len(gone) == 0 || gone[0].Seq > ce.Seq || strings.HasPrefix(gone[0].S, "server sent close") || strings.HasPrefix(gone[0].S, "stream closed")) && onlyApp {
 			recv := map[string]bool{}
